@@ -94,7 +94,7 @@ CHECKS.update({
         text=SIM + 'schedules of 1-8 QM queries, peer sightings and truncated trains on a float-exact millisecond grid; every multicast answer must fall in a '
              'window some query justifies (immediate / aggregated 20..500 ms / protected sighting+1 s..query+1.2 s), every requirement must be covered, no '
              'duplicates; trains are assembled once per source after the recorded 400-500 ms hold with the union of known answers.',
-        note='sightings are the host\'s own perception; assembly instants observed by wrapping handle_assembled_query from the harness; a truncated train counts as arriving when it is assembled (windows anchored there)',
+        note='sightings are read from the wire (every response record arriving on one of the host\'s sockets, its own multicasts included, except in a datagram byte-identical to the previous one on that socket within a second - the documented duplicate guard); assembly instants observed by wrapping handle_assembled_query from the harness; a truncated train counts as arriving when it is assembled (windows anchored there)',
         ref='3/C12'),
 })
 
